@@ -439,6 +439,9 @@ pub fn run(out: &mut Out, tier: &str, seed: u64, prop: &str) {
                     if eq != (ord == std::cmp::Ordering::Equal) { out.oracle_fail("C16", "Requirement: Eq and Ord disagree", input.clone()); }
                     if eq && hash_of(x) != hash_of(y) { out.oracle_fail("C16", "Requirement: equal values hash differently", input.clone()); }
                     if ord != y.cmp(x).reverse() { out.oracle_fail("C16", "Requirement: cmp not antisymmetric", input.clone()); }
+                    // the comparison operators go through PartialOrd: it has to be the same order as Ord
+                    if x.partial_cmp(y) != Some(ord) || (x < y) != (ord == std::cmp::Ordering::Less) || (x <= y) != (ord != std::cmp::Ordering::Greater) { out.oracle_fail("C16", "Requirement: partial_cmp / `<` / `<=` differ from cmp", input.clone()); }
+                    if x.version_or_url.partial_cmp(&y.version_or_url) != Some(x.version_or_url.cmp(&y.version_or_url)) { out.oracle_fail("C16", "VersionOrUrl: partial_cmp differs from cmp", input.clone()); }
                     for z in &parsed {
                         if ord != std::cmp::Ordering::Greater && y.cmp(z) != std::cmp::Ordering::Greater && x.cmp(z) == std::cmp::Ordering::Greater { out.oracle_fail("C16", "Requirement: cmp not transitive", input.clone()); }
                     }
@@ -446,6 +449,10 @@ pub fn run(out: &mut Out, tier: &str, seed: u64, prop: &str) {
                         let same_url = u.to_url() == v.to_url();
                         if (u == v) != same_url || (u.cmp(v) == std::cmp::Ordering::Equal) != same_url || (same_url && hash_of(u) != hash_of(v)) {
                             out.oracle_fail("C16", "VerbatimUrl: Eq / Ord / Hash do not all follow the parsed URL only", input.clone());
+                        }
+                        let given_less = pep508_rs::VerbatimUrl::from_url(v.to_url());
+                        if u.partial_cmp(v) != Some(u.cmp(v)) || (u < v) != (u.cmp(v) == std::cmp::Ordering::Less) || u.partial_cmp(&given_less) != Some(u.cmp(&given_less)) || given_less.partial_cmp(u) != Some(given_less.cmp(u)) {
+                            out.oracle_fail("C16", "VerbatimUrl: partial_cmp / `<` differ from cmp (the verbatim text takes part in one of them)", input.clone());
                         }
                     }
                 }
